@@ -16,6 +16,15 @@ Theorem C13_eval_total_partial : forall cfg, reg_ok (reg cfg) = true -> (1 <= ma
 Proof. intros cfg Hr HN q v Hwt Hg. eexists. apply find_well_typed; assumption. Qed.
 Print Assumptions C13_eval_total_partial.
 
+(* with C05_sound: the query of every text that compiles evaluates to a nodelist on every well-formed value within the depth limit *)
+From JP Require Import Model.Api Proofs.ParseTyped.
+Theorem C13_find_total_compiled : forall cfg, reg_ok (reg cfg) = true -> (1 <= max_depth cfg)%nat ->
+  forall text q v, m_compile cfg text = Ok q -> good cfg v -> exists ns, m_find cfg q v = Ok ns.
+Proof.
+  intros cfg Hr HN text q v Ec Hg. eexists. apply find_well_typed; try assumption. exact (proj1 (compile_typed cfg text q Ec)).
+Qed.
+Print Assumptions C13_find_total_compiled.
+
 (* compile(): whatever the text, no IndexError from the lexer's filter stack or the string decoder, no KeyError from the
    parser's dispatch tables, ... escapes.  Proofs/LexNoCrash.v (state-machine invariant: filter_depth = len(stack),
    non-empty inside filters; every string token body has the shape C09_decode needs), Proofs/ParseNoCrash.v (KeyErrors
